@@ -58,3 +58,27 @@ package grpcutil
 //@   ensures mdLen(src, n, k) >= 0
 //@   induct mdLenNonNeg(src, n - 1, k) when n > 0
 //@   decreases n
+
+// ConvertMetadataToProtoHeader: one header per key of src carrying that key's value list;
+// the values of "-bin" keys are base64-encoded exactly once (in place), all others are
+// left as they are. Precondition: the value lists of different keys do not share a
+// backing array (otherwise the in-place encoding of one key would rewrite another's).
+//@ func ConvertMetadataToProtoHeader
+//@   requires forall k1 string, k2 string :: has(src, k1) && has(src, k2) && k1 != k2 ==> slicebase(src[k1]) != slicebase(src[k2])
+//@   modifies []string
+//@   ensures @len len(result) == len(src)
+//@   ensures @entries forall p int :: 0 <= p && p < len(result) ==> result[p] != nil && has(src, result[p].Name) && result[p].Value == src[result[p].Name]
+//@   ensures @distinct forall p int, q int :: 0 <= p && p < q && q < len(result) ==> result[p].Name != result[q].Name
+//@   ensures @all forall k string :: has(src, k) ==> exists p int :: 0 <= p && p < len(result) && result[p].Name == k
+//@   ensures @values forall k string, i int :: has(src, k) && 0 <= i && i < len(src[k]) ==>
+//@        src[k][i] == (hasSuffix(k, "-bin") ? b64enc(old(src[k][i])) : old(src[k][i]))
+//@   loop 0: invariant len(headerInfo) == rangepos && (slicebase(headerInfo) == 0 || fresh(headerInfo))
+//@           invariant forall p int :: 0 <= p && p < rangepos ==> headerInfo[p] != nil && fresh(headerInfo[p]) && allocated(headerInfo[p])
+//@           invariant forall p int :: 0 <= p && p < rangepos ==> headerInfo[p].Name == rangekey(p)
+//@           invariant forall p int :: 0 <= p && p < rangepos ==> headerInfo[p].Value == src[rangekey(p)]
+//@           invariant forall k string, i int :: has(src, k) && 0 <= i && i < len(src[k]) ==>
+//@               src[k][i] == ((rangeidx(k) < rangepos && hasSuffix(k, "-bin")) ? b64enc(atpre(src[k][i])) : atpre(src[k][i]))
+//@   loop 1: invariant value == src[key] && has(src, key) && rangeidx(key) == rangepos - 1 && hasSuffix(key, "-bin")
+//@           invariant forall k string, i int :: has(src, k) && k != key && 0 <= i && i < len(src[k]) ==>
+//@               src[k][i] == ((rangeidx(k) < rangepos && hasSuffix(k, "-bin")) ? b64enc(atpre(src[k][i])) : atpre(src[k][i]))
+//@           invariant forall i int :: 0 <= i && i < len(value) ==> value[i] == (i <= rangeindex ? b64enc(atpre(value[i])) : atpre(value[i]))
